@@ -146,10 +146,14 @@ type Script struct {
 	declared map[string]bool
 	facts    []string // (assert ...) bodies in order
 	nfresh   int
+	specMode int // >0 while evaluating specification expressions: no facts, no definitions
+	factTag  []int // per fact: id of the top-level CFG node that produced it (-1 = global)
+	curTag   int
+	defMemo  map[string]Term
 }
 
 func newScript() *Script {
-	return &Script{declared: map[string]bool{}}
+	return &Script{declared: map[string]bool{}, curTag: -1, defMemo: map[string]Term{}}
 }
 
 func (s *Script) declareRaw(key, line string) {
@@ -179,15 +183,25 @@ func (s *Script) fresh(prefix string, sort Sort) Term {
 }
 
 func (s *Script) assume(t Term) {
+	if t == "true" || s.specMode > 0 {
+		return
+	}
+	s.facts = append(s.facts, t)
+	s.factTag = append(s.factTag, s.curTag)
+}
+
+// assumeGlobal records a context-free fact (axioms of declared symbols) even in spec mode.
+func (s *Script) assumeGlobal(t Term) {
 	if t == "true" {
 		return
 	}
 	s.facts = append(s.facts, t)
+	s.factTag = append(s.factTag, -1)
 }
 
 // define introduces a named constant equal to t (keeps terms small).
 func (s *Script) define(prefix string, sort Sort, t Term) Term {
-	if len(t) < 40 {
+	if len(t) < 40 || s.specMode > 0 {
 		return t
 	}
 	c := s.fresh(prefix, sort)
@@ -196,14 +210,17 @@ func (s *Script) define(prefix string, sort Sort, t Term) Term {
 }
 
 // query renders the script with facts[:nfacts] plus extra assertions.
-func (s *Script) query(nfacts int, extra ...Term) string {
+func (s *Script) query(nfacts int, anc map[int]bool, extra ...Term) string {
 	var b strings.Builder
 	b.WriteString("(set-option :produce-models true)\n(set-logic ALL)\n")
 	for _, d := range s.decls {
 		b.WriteString(d)
 		b.WriteByte('\n')
 	}
-	for _, f := range s.facts[:nfacts] {
+	for i, f := range s.facts[:nfacts] {
+		if anc != nil && s.factTag[i] >= 0 && !anc[s.factTag[i]] {
+			continue
+		}
 		b.WriteString("(assert ")
 		b.WriteString(f)
 		b.WriteString(")\n")
